@@ -198,3 +198,23 @@ Definition choose_start (req oldest newest : Z) : option Z :=
   else if req =? offset_oldest then Some oldest
   else if (oldest <=? req) && (req <=? newest) then Some req
   else None.
+
+(* ------------------------------------------------------------------ brokerConsumer.fetchNewMessages: the version ladder *)
+(* a KafkaVersion is its four numbers; IsAtLeast is the lexicographic comparison *)
+Definition kversion := (Z * Z * Z * Z)%type.
+Definition kv_at_least (v w : kversion) : bool :=
+  let '(a, b, c, d) := v in let '(a', b', c', d') := w in
+  (a' <? a) || ((a =? a') && ((b' <? b) || ((b =? b') && ((c' <? c) || ((c =? c') && (d' <=? d)))))).
+(* FetchRequest.Version and FetchRequest.Isolation (0 = ReadUncommitted, 1 = ReadCommitted) as a function of
+   Config.Version and Consumer.IsolationLevel; the isolation field is only assigned in the 0.11 step and is on the wire
+   from request version 4 on *)
+Definition fetch_request_fields (v : kversion) (rc : bool) : Z * Z :=
+  let ver0 := 0 in
+  let ver1 := if kv_at_least v (0, 9, 0, 0) then 1 else ver0 in
+  let ver2 := if kv_at_least v (0, 10, 0, 0) then 2 else ver1 in
+  let ver3 := if kv_at_least v (0, 10, 1, 0) then 3 else ver2 in
+  let '(ver4, iso) := if kv_at_least v (0, 11, 0, 0) then (4, if rc then 1 else 0) else (ver3, 0) in
+  let ver7 := if kv_at_least v (1, 1, 0, 0) then 7 else ver4 in
+  let ver10 := if kv_at_least v (2, 1, 0, 0) then 10 else ver7 in
+  let ver11 := if kv_at_least v (2, 3, 0, 0) then 11 else ver10 in
+  (ver11, iso).
